@@ -41,6 +41,8 @@ type Contract struct {
 	Line     int
 	Mode     string
 	Requires []Clause
+	Assume   []Clause
+	AssumePost []Clause
 	Lets     []LetDef
 	Ensures  []Clause
 	Fails    []Clause
@@ -73,7 +75,24 @@ type ContractSet struct {
 	Order    []string
 	Types    map[string]*TypeSpec
 	SpecFuns map[string]*SpecFun
+	UFuns    map[string]*UFun
+	Axioms   []*Axiom
 	Files    []string
+}
+
+// UFun is an uninterpreted spec function: //@ ufun words(Int) Int
+type UFun struct {
+	Name string
+	Args []string
+	Res  string
+}
+
+// Axiom is an assumed fact about uninterpreted functions: //@ axiom name: forall(...)
+type Axiom struct {
+	Name string
+	Src  string
+	Expr ast.Expr
+	Uses []string
 }
 
 // SpecFun is a user-defined pure spec function: //@ spec name(a, b) = expr
@@ -94,6 +113,52 @@ func preprocessExpr(s string) string {
 
 // ParseSpecExpr parses a spec expression. Sugar: `A ==> B` (lowest precedence, right assoc).
 func ParseSpecExpr(src string) (ast.Expr, error) {
+	if strings.Contains(src, "==>") {
+		src = rewriteImp(src)
+	}
+	return parseSpecExpr0(src)
+}
+
+// rewriteImp turns every `A ==> B` (lowest precedence, right associative, at any nesting depth) into imp(A, B).
+func rewriteImp(s string) string {
+	pieces := splitTop(s, ",")
+	for i, p := range pieces {
+		parts := splitTop(p, "==>")
+		if len(parts) > 1 {
+			pieces[i] = "imp(" + rewriteImp(parts[0]) + ", " + rewriteImp(strings.Join(parts[1:], "==>")) + ")"
+			continue
+		}
+		// descend into bracketed groups
+		var b strings.Builder
+		depth := 0
+		start := -1
+		for k := 0; k < len(p); k++ {
+			c := p[k]
+			switch c {
+			case '(', '[', '{':
+				if depth == 0 {
+					b.WriteByte(c)
+					start = k + 1
+				}
+				depth++
+			case ')', ']', '}':
+				depth--
+				if depth == 0 {
+					b.WriteString(rewriteImp(p[start:k]))
+					b.WriteByte(c)
+				}
+			default:
+				if depth == 0 {
+					b.WriteByte(c)
+				}
+			}
+		}
+		pieces[i] = b.String()
+	}
+	return strings.Join(pieces, ",")
+}
+
+func parseSpecExpr0(src string) (ast.Expr, error) {
 	// split on top-level ==>
 	parts := splitTop(src, "==>")
 	if len(parts) > 1 {
@@ -342,6 +407,38 @@ func (cs *ContractSet) parseLines(lines []string, file, pkgPath, schemaDir strin
 			}
 			cur = nil
 			continue
+		case "ufun":
+			rest := strings.TrimSpace(strings.TrimPrefix(l, "ufun"))
+			op := strings.Index(rest, "(")
+			cp := strings.Index(rest, ")")
+			if op < 0 || cp < op {
+				return fmt.Errorf("%s: bad ufun", where)
+			}
+			uf := &UFun{Name: strings.TrimSpace(rest[:op]), Res: strings.TrimSpace(rest[cp+1:])}
+			for _, a := range strings.Split(rest[op+1:cp], ",") {
+				if a = strings.TrimSpace(a); a != "" {
+					uf.Args = append(uf.Args, a)
+				}
+			}
+			if cs.UFuns == nil {
+				cs.UFuns = map[string]*UFun{}
+			}
+			cs.UFuns[uf.Name] = uf
+			cur = nil
+			continue
+		case "axiom":
+			rest := strings.TrimSpace(strings.TrimPrefix(l, "axiom"))
+			c := strings.Index(rest, ":")
+			if c < 0 {
+				return fmt.Errorf("%s: axiom needs 'name: expr'", where)
+			}
+			e, err := ParseSpecExpr(strings.TrimSpace(rest[c+1:]))
+			if err != nil {
+				return fmt.Errorf("%s: %v", where, err)
+			}
+			cs.Axioms = append(cs.Axioms, &Axiom{Name: strings.TrimSpace(rest[:c]), Src: strings.TrimSpace(rest[c+1:]), Expr: e})
+			cur = nil
+			continue
 		case "spec":
 			// spec name(a, b) = expr
 			rest := strings.TrimSpace(strings.TrimPrefix(l, "spec"))
@@ -382,6 +479,16 @@ func (cs *ContractSet) parseLines(lines []string, file, pkgPath, schemaDir strin
 			var c Clause
 			c, err = mkClause(tags, rest)
 			cur.Requires = append(cur.Requires, c)
+		case "assume":
+			// instance of an assumed lemma, evaluated at entry (trusted; listed in the evidence)
+			var c Clause
+			c, err = mkClause(tags, rest)
+			cur.Assume = append(cur.Assume, c)
+		case "assumepost":
+			// instance of an assumed lemma, evaluated at every normal exit
+			var c Clause
+			c, err = mkClause(tags, rest)
+			cur.AssumePost = append(cur.AssumePost, c)
 		case "ensures":
 			var c Clause
 			c, err = mkClause(tags, rest)
